@@ -18,6 +18,7 @@ pub enum FCall {
     BeginArray, EndArray, BeginArrayValue(bool), EndArrayValue,
     BeginObject, EndObject, BeginObjectKey(bool), EndObjectKey, BeginObjectValue, EndObjectValue,
     StrValue(Seq<u8>),
+    BeginString, EndString, WriteBool(bool), WriteI64(i64), WriteU64(u64),
     Other(int),
 }
 pub mod io {
@@ -59,6 +60,16 @@ pub trait Formatter {
         ensures final(self).calls() == old(self).calls().push(FCall::BeginObjectValue), final(self).failed() == (old(self).failed() || r.is_err());
     fn end_object_value<W: WriteExt>(&mut self, writer: &mut W) -> (r: io::Result<()>)
         ensures final(self).calls() == old(self).calls().push(FCall::EndObjectValue), final(self).failed() == (old(self).failed() || r.is_err());
+    fn begin_string<W: WriteExt>(&mut self, writer: &mut W) -> (r: io::Result<()>)
+        ensures final(self).calls() == old(self).calls().push(FCall::BeginString), final(self).failed() == (old(self).failed() || r.is_err());
+    fn end_string<W: WriteExt>(&mut self, writer: &mut W) -> (r: io::Result<()>)
+        ensures final(self).calls() == old(self).calls().push(FCall::EndString), final(self).failed() == (old(self).failed() || r.is_err());
+    fn write_bool<W: WriteExt>(&mut self, writer: &mut W, value: bool) -> (r: io::Result<()>)
+        ensures final(self).calls() == old(self).calls().push(FCall::WriteBool(value)), final(self).failed() == (old(self).failed() || r.is_err());
+    fn write_i64<W: WriteExt>(&mut self, writer: &mut W, value: i64) -> (r: io::Result<()>)
+        ensures final(self).calls() == old(self).calls().push(FCall::WriteI64(value)), final(self).failed() == (old(self).failed() || r.is_err());
+    fn write_u64<W: WriteExt>(&mut self, writer: &mut W, value: u64) -> (r: io::Result<()>)
+        ensures final(self).calls() == old(self).calls().push(FCall::WriteU64(value)), final(self).failed() == (old(self).failed() || r.is_err());
 }
 
 //@extract file=src/serde/de.rs macro=tri
@@ -247,6 +258,39 @@ impl<'a, W: WriteExt, F: Formatter> Compound<'a, W, F> {
         requires self is Map, !self.cur_failed(),
         ensures
             res.is_ok() ==> self.fut_ser().formatter.calls() == self.cur_calls() + (if self->state is Empty { Seq::<FCall>::empty() } else { seq![FCall::EndObject] }),
+            self.fut_ser().formatter.failed() ==> res.is_err(),
+//@end
+}
+
+// ---- map keys: bool / integer keys are written as quoted text (BeginString value EndString)
+//@extract file=src/serde/ser.rs struct=MapKeySerializer
+//@subst /(?m)^    ser:/ => pub ser:
+//@subst /^struct MapKeySerializer/ => pub struct MapKeySerializer
+//@end
+//@extract file=src/serde/ser.rs macro=quote
+//@subst /\.map_err\(Error::io\)/ => .map_io() #all
+//@end
+impl<'a, W: WriteExt, F: Formatter> MapKeySerializer<'a, W, F> {
+    #[verifier::prophetic]
+    pub open spec fn fut_ser(&self) -> Serializer<W, F> { mut_ref_future(self.ser) }
+    pub open spec fn cur_calls(&self) -> Seq<FCall> { self.ser.formatter.calls() }
+    pub open spec fn cur_failed(&self) -> bool { self.ser.formatter.failed() }
+//@extract file=src/serde/ser.rs impl="ser::Serializer for MapKeySerializer<'a, W, F>" fn=serialize_bool
+//@sig
+        requires !self.cur_failed(),
+        ensures res.is_ok() ==> self.fut_ser().formatter.calls() == self.cur_calls() + seq![FCall::BeginString, FCall::WriteBool(value), FCall::EndString],
+            self.fut_ser().formatter.failed() ==> res.is_err(),
+//@end
+//@extract file=src/serde/ser.rs impl="ser::Serializer for MapKeySerializer<'a, W, F>" fn=serialize_i64
+//@sig
+        requires !self.cur_failed(),
+        ensures res.is_ok() ==> self.fut_ser().formatter.calls() == self.cur_calls() + seq![FCall::BeginString, FCall::WriteI64(value), FCall::EndString],
+            self.fut_ser().formatter.failed() ==> res.is_err(),
+//@end
+//@extract file=src/serde/ser.rs impl="ser::Serializer for MapKeySerializer<'a, W, F>" fn=serialize_u64
+//@sig
+        requires !self.cur_failed(),
+        ensures res.is_ok() ==> self.fut_ser().formatter.calls() == self.cur_calls() + seq![FCall::BeginString, FCall::WriteU64(value), FCall::EndString],
             self.fut_ser().formatter.failed() ==> res.is_err(),
 //@end
 }
